@@ -159,6 +159,20 @@ def normalizeMSplit : LTerm → LTerm
   | .lit w v => if w > 256 ∧ w ≠ 512 then .concat [.lit (w - 256) (v / 2 ^ 256), .lit 256 (v % 2 ^ 256)] else .lit w v
   | t => normalizeM t
 
+/-- NOT what the pinned code does: the model of the repair proposed for the generic-layout finding "concrete key bytes fused
+with a hashed base word are not decoded like the unfused spelling": in a hash preimage a trailing literal wider than 256 bits
+(a fully concrete preimage, or the concrete tail of a key followed by a concrete base word) is split into `key part ‖ base
+word`, so that `decodeG` decodes the base word on its own.  Used by the driver only when the harness detects that repair. -/
+def normalizeGSplit : LTerm → LTerm
+  | .lit w v => if w > 256 ∧ w ≠ 512 then .concat [.lit (w - 256) (v / 2 ^ 256), .lit 256 (v % 2 ^ 256)] else .lit w v
+  | .concat args =>
+    match args.getLast? with
+    | some (.lit w v) =>
+      if w > 256 then .concat (args.dropLast ++ [.lit (w - 256) (v / 2 ^ 256), .lit 256 (v % 2 ^ 256)])
+      else normalizeM (.concat args)
+    | _ => normalizeM (.concat args)
+  | t => normalizeM t
+
 /-! ### KeccakRegistry.reverse_lookup -/
 
 /-- `expr + delta if delta else expr` (a negative delta becomes the two's-complement literal, as z3 does) -/
